@@ -53,7 +53,7 @@ DefaultedOuterPosFollowed(o, out) ==
   LET od == {o[j].n : j \in {x \in PosIdx(o) : o[x].d}}
       rp == Posi(out)
       at == {x \in DOMAIN rp : rp[x].n \in od}
-  IN od # {} /\ (at = {} \/ \E x \in DOMAIN rp : (\A y \in at : x > y) /\ rp[x].n \notin AllNames(o))
+  IN od # {} /\ (at = {} \/ \E x \in DOMAIN rp : (\A y \in at : x > y) /\ rp[x].n \notin NamedNames(o))      \* (named parameters of outer: an inner parameter may be SPELLED like outer's forwarded star)
 C02_Sound(o, i, uva, uvk, out, Calls) ==
   \A c \in Calls : (Accepts(out, c) /\ NonColliding(c, out, <<o, i>>)) => Comp(o, i, uva, uvk, c)
 C02_Exact(o, i, uva, uvk, out, Calls) ==
